@@ -26,3 +26,7 @@ def check(ctx, rep):
     F.rule_setters(fm, rep, 'R9')
     K.rule_try_send(fm, rep, 'R10')
     K.rule_plain_forms(fm, rep, 'R11')
+    # "parsing the line back yields exactly the supplied value list": the value reaches the formatter unaltered
+    # (class and lossless flow of every To*Value impl; Duration units and the narrowing guard stay with C02)
+    from . import values as V
+    V.rule_flow(ctx, rep, 'R12')
